@@ -18,6 +18,7 @@ import time
 from . import deps
 
 deps.add_path()
+os.environ.setdefault("PERSIM_VERIF", "1")
 
 HERE = os.path.dirname(os.path.abspath(__file__))
 VERIF = os.path.dirname(HERE)
@@ -27,6 +28,13 @@ NSHARDS_DEFAULT = 16
 
 def rel(path):
     return os.path.relpath(path, VERIF)
+
+
+def sig_matches(sig, pattern):
+    """'clause/what' matches itself and '*/what' (any clause of the property)"""
+    if pattern.startswith("*/"):
+        return sig.split("/", 1)[-1] == pattern[2:]
+    return sig == pattern
 
 
 def load_findings():
@@ -152,7 +160,7 @@ def run_fixed_and_known(mod, pid, findings):
         if f["property"] != pid:
             continue
         res = run_case(clauses[f["clause"]], f["case"])
-        if res["outcome"] == "violation" and res["sig"] == f["signature"]:
+        if res["outcome"] == "violation" and sig_matches(res["sig"], f["signature"]):
             out["known_lines"].append("KNOWN-FINDING: property=%s %s" % (pid, f["what"]))
         else:
             out["notes"].append("NOTE: listed finding %s no longer reproduces (outcome=%s sig=%s)"
@@ -194,7 +202,7 @@ def main(argv=None):
         print("replay %s clause=%s outcome=%s sig=%s %s" % (args.replay, rep["clause"], res["outcome"], res["sig"], res["msg"]))
         if res["outcome"] == "violation":
             findings = load_findings()
-            known = [f for f in findings["open"] if f["property"] == pid and f["signature"] == res["sig"]]
+            known = [f for f in findings["open"] if f["property"] == pid and sig_matches(res["sig"], f["signature"])]
             if known:
                 print("KNOWN-FINDING: property=%s %s" % (pid, known[0]["what"]))
                 return 0
@@ -238,21 +246,26 @@ def main(argv=None):
         violations.append((sig, path, "regression of a fixed defect: " + msg))
     for name, a in agg.items():
         for sig, f in a["failures"].items():
-            if sig in open_sigs:
+            if any(sig_matches(sig, pat) for pat in open_sigs):
                 known_matched += f["count"]
                 continue
             case = f["cases"][0]
             try:
+                if "no_result_within" in sig:
+                    raise RuntimeError("no shrinking of non-terminating cases")
                 budget = 300 if args.tier == "quick" else 1500
-                small, _ = shrink(clauses[name], case, sig, budget=budget,
+                small, _ = shrink(clauses[name], case, sig, budget=budget, wall=45.0 if args.tier == "quick" else 240.0,
                                   valid=getattr(mod, "VALID", {}).get(name, getattr(mod, "VALID_DEFAULT", None)))
             except Exception:  # noqa: BLE001
                 small = case
             from .core import run_case
-            r = run_case(clauses[name], small)
-            msg = r["msg"] if r["outcome"] == "violation" else f["msg"]
-            if r["outcome"] != "violation":
-                small = case
+            if small is not case:
+                r = run_case(clauses[name], small)
+                msg = r["msg"] if r["outcome"] == "violation" else f["msg"]
+                if r["outcome"] != "violation":
+                    small = case
+            else:
+                msg = f["msg"]
             path = write_replay(pid, name, sig, small, msg, f.get("hashseed"))
             violations.append((sig, rel(path), "%s (x%d)" % (msg, f["count"])))
 
